@@ -396,7 +396,7 @@ def d6(chk, prog):
     # get_fasta_stats on a literal genome: each bin's own [start:end) bases, in bin order, (gc, rmask) in that order
     fg = prog.fn(f"{REF}.get_fasta_stats")
     tb2 = Table(chk, "gc-rmask-closed-form", "get_fasta_stats on a literal two-sequence genome: the bases of each bin's own 0-based half-open interval, in bin order", fg.loc(), fg.qn)
-    genome = {"chr1": "ACGTacgtNNGGCCaattTTTTGGGGccccNNNNACAC", "chr2": "ttttGGGGNNNNacgtACGTAAAACCCC"}
+    genome = {"chr2": "ACGTacgtNNGGCCaattTTTTGGGGccccNNNNACAC", "chr10": "ttttGGGGNNNNacgtACGTAAAACCCC"}      # genomic order is not string order
 
     class RawSeq:
         def __init__(self, text):
@@ -427,7 +427,7 @@ def d6(chk, prog):
             if k not in genome:
                 raise Raised("KeyError", k)
             return RawSeq(genome[k]) if self.raw else Wrapped(genome[k])
-    bins = [("chr1", 0, 8), ("chr1", 8, 10), ("chr1", 10, 22), ("chr1", 20, 38), ("chr2", 0, 4), ("chr2", 4, 12), ("chr2", 12, 28)]
+    bins = [("chr2", 0, 8), ("chr2", 8, 10), ("chr2", 10, 22), ("chr2", 20, 38), ("chr10", 0, 4), ("chr10", 4, 12), ("chr10", 12, 28)]
     W.reset()
     model = Model()
     opened = []
@@ -451,6 +451,47 @@ def d6(chk, prog):
             cell_ok = ok and abs(Fr(out[0][i]) - wg) < Fr(1, 10 ** 9) and abs(Fr(out[1][i]) - wr) < Fr(1, 10 ** 9)
             tb2.cell(cell_ok, dict(bin=f"{c}:{s_}-{e_}", bases=sub, got=(str(out[0][i]), str(out[1][i])) if ok else repr(out)[:80], want=(str(wg), str(wr))))
     tb2.done("a bin's GC / repeat-masked fraction is not computed from that bin's own [start:end) bases (or the two values are swapped / misordered)")
+
+
+def d9(chk, prog):
+    chk.clause("D9", "sample sexes handed to the pooling: the given sex for every sample, or the inferred one -- antitarget call preferred, target call otherwise, antitarget-only calls kept")
+    fi = prog.fn(f"{REF}.do_reference")
+    tb = Table(chk, "sample-sexes", "do_reference: the `sexes` mapping reaching combine_probes (given / inferred from targets and antitargets with partial calls)", fi.loc(), fi.qn)
+    tfiles, afiles = ["A.targetcoverage.cnn", "B.targetcoverage.cnn", "C.targetcoverage.cnn", "D.targetcoverage.cnn"], ["A.anti.cnn", "B.anti.cnn", "C.anti.cnn", "D.anti.cnn"]
+    t_calls = {"A": True, "B": False, "C": True}                       # D: not callable from targets (no chrX bins on the panel)
+    a_calls = {"A": True, "B": True, "D": False}                       # C: empty antitarget file
+    for given, with_anti in itertools.product([None, True, False], [True, False]):
+        W.reset()
+        model = Model()
+        seen, infer_args = {}, []
+
+        def infer(it, fnames, hap, par, infer_args=infer_args):
+            infer_args.append((list(fnames), hap, par))
+            return dict(t_calls if list(fnames) == tfiles else a_calls)
+        model.prims[f"{REF}.infer_sexes"] = infer
+        model.prims["cnvlib.cmdutil.read_cna"] = lambda it, fname, *a, **k: make_ga("CopyNumArray", [dict(chromosome="chr1", start=0, end=1, gene="g", log2=0)], {"sample_id": fname.split(".")[0]})
+
+        def combine(it, *args, seen=seen):
+            seen["args"] = args
+            return make_ga("CopyNumArray", [dict(chromosome="chr1", start=0, end=1, gene="g", log2=0, spread=0)], {"sample_id": "reference"})
+        model.prims[f"{REF}.combine_probes"] = combine
+        model.prims[f"{REF}.warn_bad_bins"] = lambda it, *a, **k: None
+        it = Interp(prog, model)
+        out = tb.guard(lambda: it.run(fi.qn, [tfiles, afiles if with_anti else None, None, True, "grch38", given]), f"female_samples={given} antitargets={with_anti}")
+        if out is None:
+            continue
+        sexes = seen.get("args", [None] * 6)[5]
+        if given is not None:
+            want = {s: given for s in "ABCD"}
+        elif with_anti:
+            want = {"A": True, "B": True, "C": True, "D": False}
+        else:
+            want = dict(t_calls)
+        ok = isinstance(sexes, dict) and dict(sexes) == want
+        if given is None:
+            ok = ok and infer_args == [(tfiles, False, "grch38")] + ([(afiles, False, "grch38")] if with_anti else [])
+        tb.cell(ok, dict(female_samples=given, antitargets=with_anti, sexes=dict(sexes) if isinstance(sexes, dict) else repr(sexes), want=want, infer_calls=[(a[0][0], a[1], a[2]) for a in infer_args]))
+    tb.done("the per-sample sexes used to shift the sex chromosomes are not the given / inferred ones (a sample without a call is treated as male)")
 
 
 def d7(chk, prog):
@@ -511,6 +552,7 @@ def run(chk):
     d6(chk, prog)
     d7(chk, prog)
     d8(chk, prog)
+    d9(chk, prog)
 
 
 _R = "cnvlib/reference.py"
@@ -545,6 +587,9 @@ MUTANTS = [
     dict(name="FASTA opened without as_raw", file=_R, old="    with pyfaidx.Fasta(fa_fname, as_raw=True) as fa_file:", new="    with pyfaidx.Fasta(fa_fname) as fa_file:"),
     dict(name="gc and rmask returned swapped", file=_R, old="    return np.asarray(gc_vals, dtype=float), np.asarray(rm_vals, dtype=float)", new="    return np.asarray(rm_vals, dtype=float), np.asarray(gc_vals, dtype=float)"),
     dict(name="twin: sequence slice through named bounds", expect="silent", file=_R, old="                yield fa_file[_chrom][int(start) : int(end)]", new="                lo, hi = int(start), int(end)\n                seq = fa_file[_chrom]\n                yield seq[lo:hi]"),
+    dict(name="seeded C05e: sequences extracted in groupby (string-sorted) chromosome order", file=_R, old="        for chrom, subarr in intervals.by_chromosome():\n", new="        for chrom, subarr in sorted(intervals.by_chromosome()):\n"),
+    dict(name="antitarget-only sex calls dropped", file=_R, old="                if t_is_xx is None:\n                    sexes[sid] = a_is_xx\n                elif", new="                if t_is_xx is None:\n                    pass\n                elif"),
+    dict(name="target sex call preferred over the antitarget call", file=_R, old="                        \"female\" if a_is_xx else \"male\",\n                    )\n                    sexes[sid] = a_is_xx", new="                        \"female\" if a_is_xx else \"male\",\n                    )"),
     dict(name="twin: first array renamed throughout load_sample_block", edits=[(_R, "cnarr1", "first_arr", True)], expect="silent"),
     dict(name="twin: masks computed in another order, flat profile first", file=_R, old="    is_chr_x = cnarr1.chr_x_filter(diploid_parx_genome)\n    is_chr_y = cnarr1.chr_y_filter(diploid_parx_genome)\n    ref_flat_logr = cnarr1.expect_flat_log2(is_haploid_x, diploid_parx_genome)\n",
          new="    ref_flat_logr = cnarr1.expect_flat_log2(is_haploid_x, diploid_parx_genome)\n    x_mask = cnarr1.chr_x_filter(diploid_parx_genome)\n    is_chr_y = cnarr1.chr_y_filter(diploid_parx_genome)\n    is_chr_x = x_mask\n", expect="silent"),
